@@ -5,7 +5,7 @@
 set -u
 V=/root/work/vcopy
 mkdir -p $V
-rsync -a --delete --exclude /work --exclude /.git /verif/ $V/
+if [ -z "${SEED_NOSYNC:-}" ]; then rsync -a --delete --exclude /work --exclude /.git /verif/ $V/; fi
 mkdir -p $V/work; echo "SYNCED $(date +%T)"
 for sp in "$@"; do
   set -- $sp
